@@ -346,10 +346,30 @@ retry:
 	}
 
 finished:
+	// The node may have been deleted while its upper levels were being linked:
+	// the check of its own link above and the predecessor CAS are two steps, so
+	// a level can be linked after the deleter marked it and after the deleter's
+	// clean-up search went by. A marked node must not stay linked (it is about
+	// to be reclaimed): if that happened, run the clean-up search ourselves.
+	if _, deleted := x.getNext(0); deleted {
+		s.findPath(itm, pastEqual(insCmp), buf, sts)
+	}
+
 	sts.AddInt64(&sts.nodeAllocs, 1)
 	sts.AddInt64(&sts.levelNodesCount[itemLevel], 1)
 	sts.AddInt64(&sts.usedBytes, int64(s.Size(x)))
 	return x, true
+}
+
+// pastEqual makes a path search continue past every item equal to its target,
+// unlinking the marked nodes it meets on the way.
+func pastEqual(cmp CompareFn) CompareFn {
+	return func(this, that unsafe.Pointer) int {
+		if v := cmp(this, that); v != 0 {
+			return v
+		}
+		return -1
+	}
 }
 
 func (s *Skiplist) softDelete(delNode *Node, sts *Stats) bool {
@@ -405,7 +425,10 @@ func (s *Skiplist) deleteNode(n *Node, cmp CompareFn, buf *ActionBuffer, sts *St
 	itm := n.Item()
 	if s.softDelete(n, sts) {
 		verifYield(vpSlDelSearch, unsafe.Pointer(s), unsafe.Pointer(n), 0)
-		s.findPath(itm, cmp, buf, sts)
+		// Unlink the node at every level. The search must run past items equal
+		// to the deleted one: a concurrent insert of an equal item can have
+		// linked its node in front of the marked node at an upper level.
+		s.findPath(itm, pastEqual(cmp), buf, sts)
 		return true
 	}
 
